@@ -5182,7 +5182,19 @@ int64_t ExpressionEvaluator::evaluate_function_call_impl(const ASTNode *node) {
                         }
 
                         // const修飾を設定
-                        if (param->is_const) {
+                        // The parameter is a reference to the caller's
+                        // array (the callee's writes are copied back when
+                        // its scope is popped), so it is read-only if it is
+                        // declared const or if the array it is bound to is
+                        // const.  When an array parameter is forwarded
+                        // to another function, source_var is such a
+                        // reference and already carries the flag.  Every
+                        // store (any element type and dimension, compound
+                        // assignment, ++/--, whole-array assignment) checks
+                        // the flag on the variable it looked up by name,
+                        // i.e. on this reference.
+                        if (param->is_const ||
+                            (source_var->is_const && source_var->is_assigned)) {
                             array_ref.is_const = true;
                         }
 
